@@ -26,7 +26,10 @@ def withOracle (orc : String) (origins : List Bytes) (k : Ext → String) : Stri
   | none => "BAD-ORACLE"
   | some tbl =>
     match oracleMisses tbl origins with
-    | [] => k (extOf tbl)
+    | [] =>
+      match ip6Disagreements tbl with
+      | [] => k (extOf tbl)
+      | h :: _ => "NETIP-MODEL-DISAGREES " ++ encBytes h
     | m :: _ => "ORACLE-MISS " ++ encBytes m
 
 def opPattern (s orc : String) : String :=
